@@ -108,6 +108,10 @@ func EndBlocker(ctx sdk.Context, k keeper.Keeper) {
 						sdk.NewAttribute(types.AttributeKeyConsumer, requestContext.Consumer),
 					),
 				})
+				// do not leave the queue entry behind: pause the context so that its consumer can
+				// start it again once a rate is available
+				k.OnRequestContextPaused(ctx, requestContext, requestContextID, "no exchange rate")
+				k.DeleteNewRequestBatch(ctx, requestContextID, ctx.BlockHeight())
 				return
 			}
 
